@@ -103,6 +103,55 @@ def handoff(ctx):
                "`%s` unblocks the first task of %s when there is one" % (key.split("::")[-1], peers), loc=b.loc())
 
 
+def _between_guard_labels(body, anchor, site):
+    """Data labels of the branch conditions that lie between `anchor` and `site` and on which `site` is control dependent."""
+    fs = FlowSlicer(body, control=False)
+    labs = set()
+    for sw in control_deps(body).get(site.bb, ()):
+        ts = body.term_site(sw)
+        if body.path_exists(anchor, lambda x, ts=ts: x == ts) is not None:
+            labs |= fs.operand_labels(body.term(sw)["discr"], ts)
+    return labs
+
+
+def sender_release_chain(ctx):
+    """"A blocked sender is always released when space arrives."  Two wake-ups cooperate: after taking a message out, recv wakes the first
+    waiting sender; after pushing, a sender wakes the next waiting sender if there is still room.  Either may be made conditional on
+    more state as long as the other stays unconditional in that respect; if recv's wake depends on how full the queue was AND the chain
+    wake is skipped whenever a receiver was woken, the second of two parked senders is never released (receiver drains the queue,
+    blocks, first sender pushes and wakes only the receiver, receiver takes the message out of a queue that "was not full")."""
+    prog = ctx.prog
+    sb = ctx.body(SEND, "C06.CHAIN")
+    rb = ctx.body(RECV, "C06.CHAIN")
+    pushes = []
+    for b, s, t in calls_in(prog, SEND, lambda c: c.endswith("SmallVec::push")):
+        if ("field:" + ST + "messages") not in expand_closure_labels(prog, FlowSlicer(b).operand_labels(t["args"][0], s)):
+            continue
+        if b is sb:
+            pushes.append(s)
+        else:       # the push sits in a closure: the anchor is the site of send_internal that runs that closure
+            pushes += [x for x, tt in sb.calls() if b.nkey in sb.passed_callables(tt)]
+    removes = [s for s, t in _calls_on_field(prog, rb, ST + "messages", re.compile(r"SmallVec::remove$"))]
+    if not (ctx.floor("C06.CHAIN", "message push in send_internal", len(pushes), 1) and ctx.floor("C06.CHAIN", "message removal in recv_internal", len(removes), 1)):
+        return
+    WS, WR, MSG = "field:" + ST + "waiting_senders", "field:" + ST + "waiting_receivers", "field:" + ST + "messages"
+    chain = [s for s in _with_sites(prog, sb, T + "Task::unblock") if WS in FlowSlicer(sb).guard_labels(s) and sb.path_exists(pushes[0], lambda x, s=s: x == s) is not None
+             and WS in _between_guard_labels(sb, pushes[0], s)]
+    rwake = [s for s in _with_sites(prog, rb, T + "Task::unblock") if rb.path_exists(removes[0], lambda x, s=s: x == s) is not None
+             and WS in _between_guard_labels(rb, removes[0], s)]
+    ctx.ob("C06.CHAIN", "chain-wake-present", bool(chain), "after its push a sender wakes the next waiting sender (when there is room)", loc=sb.loc())
+    ctx.ob("C06.CHAIN", "recv-wakes-sender", bool(rwake), "after taking a message out recv wakes the first waiting sender", loc=rb.loc())
+    if not (chain and rwake):
+        return
+    dep_a = WR in _between_guard_labels(sb, pushes[0], chain[0])
+    dep_b = MSG in _between_guard_labels(rb, removes[0], rwake[0])
+    ctx.ob("C06.CHAIN", "one-wake-up-is-unconditional", not (dep_a and dep_b),
+           "the sender-release chain holds: chain wake %s on waiting_receivers, recv's wake %s on the queue length" %
+           ("depends" if dep_a else "does not depend", "depends" if dep_b else "does not depend") if not (dep_a and dep_b) else
+           "the chain wake after a push is skipped when a receiver was woken AND recv wakes a waiting sender only for some queue lengths: with two parked "
+           "senders the second one is never released once the receiver has drained the queue", loc=rb.loc(rwake[0]))
+
+
 def siblings(ctx):
     prog = ctx.prog
     drops = [("<" + M + "Sender as core::ops::drop::Drop>::drop", "known_senders", "waiting_receivers"),
@@ -205,4 +254,4 @@ def capacity(ctx):
             ctx.ob("C06.CAP", "answer-decides", br is not None, "send_internal branches on the predicate's answer", loc=sb.loc(s))
 
 
-RULES = [("C06.FIFO", fifo), ("C06.WAKE", recheck), ("C06.HAND", handoff), ("C06.SIB", siblings), ("C06.CAP", capacity)]
+RULES = [("C06.FIFO", fifo), ("C06.WAKE", recheck), ("C06.HAND", handoff), ("C06.SIB", siblings), ("C06.CAP", capacity), ("C06.CHAIN", sender_release_chain)]
